@@ -3,6 +3,7 @@
 from __future__ import division
 import math
 import time
+import itertools
 from collections import deque
 
 try:  # Python3
@@ -562,6 +563,7 @@ class Polygon2D(Base2DIn2D):
         # get an array representation of the polygon and set up the priority queue
         _polygon = tuple(pt.to_array() for pt in self.vertices)
         cell_queue = PriorityQueue()
+        tie_break = itertools.count()  # insertion order decides between cells of equal priority
 
         # cover polygon with initial cells
         x = min_x
@@ -570,7 +572,7 @@ class Polygon2D(Base2DIn2D):
             while y < max_y:
                 c = _Cell(x + h, y + h, h, _polygon)
                 y += cell_size
-                cell_queue.put((-c.max, time.time(), c))
+                cell_queue.put((-c.max, next(tie_break), c))
             x += cell_size
 
         best_cell = self._get_centroid_cell(_polygon)
@@ -592,13 +594,13 @@ class Polygon2D(Base2DIn2D):
 
             h = cell.h / 2
             c = _Cell(cell.x - h, cell.y - h, h, _polygon)
-            cell_queue.put((-c.max, time.time(), c))
+            cell_queue.put((-c.max, next(tie_break), c))
             c = _Cell(cell.x + h, cell.y - h, h, _polygon)
-            cell_queue.put((-c.max, time.time(), c))
+            cell_queue.put((-c.max, next(tie_break), c))
             c = _Cell(cell.x - h, cell.y + h, h, _polygon)
-            cell_queue.put((-c.max, time.time(), c))
+            cell_queue.put((-c.max, next(tie_break), c))
             c = _Cell(cell.x + h, cell.y + h, h, _polygon)
-            cell_queue.put((-c.max, time.time(), c))
+            cell_queue.put((-c.max, next(tie_break), c))
             num_of_probes += 4
         return Point2D(best_cell.x, best_cell.y)
 
